@@ -247,4 +247,25 @@ PLANS = {
         "quick": [{"flavor": "debug", "shards": 1}, {"flavor": "release", "shards": 1}],
         "thorough": [{"flavor": "debug", "shards": 2}, {"flavor": "release", "shards": 2}],
     },
+
+    "C13": {
+        "level": "exploration",
+        "rule": "set_general_handler!(idt, h, range) with RUNTIME ranges (one macro expansion per range form: lo..=hi, lo..hi, lo.., "
+                "literal index, full table) on a junk-filled IDT (random handlers on plain vectors, marker bytes in the reserved "
+                "entries): for (thorough) all 65536 (lo,hi) pairs / (quick) all pairs touching an architectural edge + a stride, "
+                "the present bit / gate type / selector / stub address of all 256 RAW entries must be 'present with that "
+                "expansion's stub for v' iff v in range and not reserved, and every other entry byte-identical. Then simulated "
+                "interrupt delivery (E6): switch to a scratch stack, push SS, RSP, RFLAGS, CS, RIP (+ error code on the ten "
+                "error-code vectors) as the CPU does, jump to the handler address decoded from the raw IDT bytes; the real "
+                "extern \"x86-interrupt\" stub runs natively and returns with its own iretq. All 248 non-reserved vectors x several "
+                "frames (random arithmetic/DF/ID flags, random aligned and unaligned RSP values, random error codes) x every "
+                "expansion: general handler called exactly once with index v, the pushed frame, Some(err) iff the vector defines "
+                "one; returning vectors resume at the pushed RIP with the frame's RSP and flags; diverging vectors (8, 18) do not "
+                "return. InterruptStackFrameValue::iretq executed natively lands on the frame's RIP/RSP/flags. distinct_nontrivial "
+                "counts distinct (profile, vector, vector kind, DF, RSP alignment) and installation-form tuples.",
+        "assumptions": COMMON_ASSUME + ["IF, IOPL, TF, AC, VM/RF cannot be varied under a native ring-3 iretq; CS/SS are the process's own selectors",
+                                         "the general handler of the harness reads the frame field by field (volatile): with SSE enabled LLVM otherwise emits 16-byte aligned loads on the 8-byte aligned hardware frame"],
+        "quick": [{"flavor": "debug", "shards": 2}, {"flavor": "release", "shards": 2}, {"flavor": "opt0", "shards": 2}],
+        "thorough": [{"flavor": "debug", "shards": 6}, {"flavor": "release", "shards": 6}, {"flavor": "opt0", "shards": 4}],
+    },
 }
